@@ -1,6 +1,8 @@
 (* C02 - runtime property: statements over the transition-system models (Mux/Pipe.v, Mux/Accept.v); see also the sibling files. *)
 From Coq Require Import List NArith ZArith Bool Arith.
 From SA Require Import Base.Tok Gen.Shapes Mux.Lts Mux.Pipe Mux.Accept Mux.Runtime Mux.Runtime_proofs Mux.Accept_proofs.
+From SA Require Gen.Shapes2.
+From Coq Require Import String.
 Import ListNotations.
 Local Open Scope nat_scope.
 
@@ -30,3 +32,10 @@ Proof. exact inline_blocks_refuted. Qed.
 
 Theorem c02_served_stable : forall spawns spins s j, is_served s j = true -> is_served (loop_step spawns spins s) j = true.
 Proof. exact served_stable. Qed.
+
+(* Neither end narrows the multiplexer's shared receive buffer (its default is the 4 MiB of the property's quantifier): the only
+   field either end overrides is the frame size. *)
+Theorem c02_mux_config_facts :
+  Gen.Shapes2.server_mux_overrides = "MaxFrameSize"%string /\ Gen.Shapes2.client_mux_overrides = "MaxFrameSize"%string.
+Proof. split; reflexivity. Qed.
+Print Assumptions c02_mux_config_facts.
